@@ -347,12 +347,28 @@ def c16_part(out: Outcome, tier):
             key0 = '%s::Display[%s]' % (d.id, var)
             out.obligations += 1
             if ent.get('missing'):
-                out.failed.append({'key': key0 + '#names_type_and_bound', 'backend': 'dump-read', 'message': 'no Display arm for the variant', 'detail': '', 'decl': d.id, 'decl_obj': d, 'witness': []})
+                out.obligations -= 1
+                out.undecided.append('%s: the Display arm of the variant could not be read from the expansion' % key0)
                 continue
             if not ent['names_ok'] or not ent['bound_ok']:
-                out.failed.append({'key': key0 + '#names_type_and_bound', 'backend': 'dump-read',
-                                   'message': 'the message must name the type (stringify!(%s)) and the declared bound `%s`; arm has fmt=%r bound arg `%s`' % (d.name, ent['validator'].bound.src, ent['fmt'], ent['bound_arg']),
-                                   'detail': ent['fmt'], 'decl': d.id, 'decl_obj': d, 'witness': []})
+                # the syntactic read does not recognise how type name / bound are passed: decide by RUNNING
+                # the real code (bounded): the produced message must contain the type name and the bound
+                import copy
+                try:
+                    wit, wlog = witness.run_witness(copy.copy(d))
+                except Exception as e:
+                    wit, wlog = None, repr(e)
+                bad = [w for w in (wit or []) if w.get('entry') == 'MessageNaming']
+                if wit is None:
+                    out.obligations -= 1
+                    out.undecided.append('%s: naming of type/bound not readable and the run did not build' % key0)
+                elif bad:
+                    out.failed.append({'key': key0 + '#names_type_and_bound', 'backend': 'concrete run (bounded)',
+                                       'message': 'the message does not name the type and the declared bound', 'detail': json.dumps(bad[:2]),
+                                       'decl': d.id, 'decl_obj': d, 'witness': bad})
+                else:
+                    out.discharged += 1
+                    out.bounded.append('%s: naming decided by running the real code (bounded)' % key0) if len(out.bounded) < 6 else None
             else:
                 out.discharged += 1
             if ent['stated'] is None:
